@@ -132,9 +132,14 @@ impl Window {
         use crate::verif::{PRELOAD_BYTES, PRELOAD_CHUNK, PRELOAD_MODE, PRELOAD_N};
         unsafe {
             if PRELOAD_MODE == 1 {
+                // the state after PRELOAD_N chunks were read (the last one may be the short,
+                // final chunk: then the end of the file has been seen)
                 for _ in 0..PRELOAD_N {
                     let mut chunk = vec![0; self.chunk_size];
                     let size = self.file.read(&mut chunk).unwrap();
+                    if size != self.chunk_size {
+                        self.eof = true;
+                    }
                     chunk.truncate(size);
                     self.elements.push_back(chunk);
                 }
